@@ -31,6 +31,7 @@ pub struct ProtocolMessageAck {
 pub(crate) enum ProtocolMessageKind {
     Nothing,
     PublishAck(NonZeroU16),
+    PublishReceived(NonZeroU16),
     PublishRelease(NonZeroU16),
     Ping,
     Disconnect,
